@@ -379,6 +379,16 @@ fn main() {
             let ff = *f;
             guarded(&mut w, &mut sink, name, b.len(), &hx, move || ff(&bb));
         }
+        // a decoder is a function of its input: after all the malformed inputs (same thread) the honest encoding
+        // must still decode
+        {
+            let hb = honest.clone();
+            let ff = *f;
+            if guarded(&mut w, &mut sink, name, honest.len(), &|| hex(honest), move || ff(&hb)) != Some(true) {
+                let i = sink.next_index();
+                sink.sfail(i, "history-dependent-decoder", &format!("{}: the honest encoding is refused after a series of malformed inputs was decoded on the same thread", name), &hex(honest));
+            }
+        }
     }
     // hex / JSON-hex string entry points of mithril-common
     type SDec = (&'static str, String, fn(&str) -> bool);
@@ -416,6 +426,14 @@ fn main() {
             let ff = *f;
             guarded(&mut w, &mut sink, name, s.len(), &hx, move || ff(&s2));
         }
+        {
+            let h2 = honest.clone();
+            let ff = *f;
+            if guarded(&mut w, &mut sink, name, honest.len(), &|| honest.clone(), move || ff(&h2)) != Some(true) {
+                let i = sink.next_index();
+                sink.sfail(i, "history-dependent-decoder", &format!("{}: the honest encoding is refused after a series of malformed inputs was decoded on the same thread", name), honest);
+            }
+        }
     }
     // ---- (2b) structure-aware mutations of honest encodings: every node of the JSON / CBOR tree ------
     {
@@ -452,6 +470,12 @@ fn main() {
                 let d = *dec;
                 guarded(&mut w, &mut sink, name, text.len(), &hx, move || d(m));
             }
+            {
+                let hh = honest.clone(); let d = *dec;
+                if guarded(&mut w, &mut sink, name, 100, &|| honest.to_string(), move || d(hh)) != Some(true) {
+                    let i = sink.next_index(); sink.sfail(i, "history-dependent-decoder", &format!("{}: the honest document is refused after the mutated ones were decoded on the same thread", name), name);
+                }
+            }
         }
         sink.note("structure_aware_json_mutations", &n_json.to_string());
         let mut n_cbor = 0u64;
@@ -465,6 +489,12 @@ fn main() {
                 let bb = b.clone();
                 let ff = *dec;
                 guarded(&mut w, &mut sink, name, b.len(), &hx, move || ff(&bb));
+            }
+            {
+                let hb = honest.clone(); let ff = *dec;
+                if guarded(&mut w, &mut sink, name, honest.len(), &|| hex(honest), move || ff(&hb)) != Some(true) {
+                    let i = sink.next_index(); sink.sfail(i, "history-dependent-decoder", &format!("{}: the honest encoding is refused after the mutated documents were decoded on the same thread", name), &hex(honest));
+                }
             }
         }
         sink.note("structure_aware_cbor_mutations", &n_cbor.to_string());
